@@ -454,7 +454,12 @@ class Check:
             "trusted_base": spec["trusted_base"],
             "theorems": self.theorems,
             "rule": spec["rule"],
-            "exhaustive": bool(spec.get("exhaustive", False)),
+            # never claimed: the theorems cover every input of the MODEL (kernel-checked), but the run's own enumeration
+            # (model-to-code correspondence) is exhaustive only to the depth named in `rule` and sampled beyond
+            "exhaustive": False,
+            "exhaustive_note": "proofs quantify over all inputs/histories of the model; the correspondence run enumerates a finite "
+                               "sub-space completely (depths in `rule`%s) and samples beyond it — not exhaustive over the property's quantifier"
+                               % ("" if spec.get("exhaustive") else "; no complete enumeration in this run"),
             "known_findings_reproduced": known_seen,
             "no_longer_checks": [b["what"] for b in self.broken],
         })
